@@ -670,6 +670,10 @@ class Interp:
                 self.assume(cur.n >= 0)
             elif isinstance(cur, SymSet):
                 cur.m = z3.Array(self._fname('set'), z3.IntSort(), z3.BoolSort())
+            elif isinstance(cur, PySet):
+                from .models import promote_set
+                promote_set(cur)
+                cur.m = z3.Array(self._fname('set'), z3.IntSort(), z3.BoolSort())
             else:
                 self.setattr_(obj, node.attr, self.havoc_value(cur, node.attr, spec))
         elif isinstance(node, ast.Name):
@@ -729,6 +733,9 @@ class Interp:
         elif isinstance(it, _SymRange):
             n = it.count()
             getter = lambda i: mk(it.start_t + i, 'int')
+        elif isinstance(it, range) and it.step == 1:
+            n = z3.IntVal(max(0, it.stop - it.start))
+            getter = lambda i: mk(it.start + i, 'int')
         else:
             raise Unsupported('loop invariant on non-symbolic for loop in %s' % self.cur_func_name())
         idx_name = spec.index or '_i'
